@@ -543,6 +543,131 @@ func workload3(res *core.Result, r *rand.Rand, k int, keyPrefix string) {
 	res.Case(fmt.Sprintf("%sw3:%d:%d", keyPrefix, k, nb), true)
 }
 
+// workload4: both directions of one session pair wrap, in every order of up to three wrap events, for the
+// end-to-end pair and for the link-layer pair derived from the same exchange. After every wrap: the direction that
+// wrapped and the opposite direction both still carry fresh traffic (regular and priority), frames sealed under a
+// replaced key no longer unseal, and at the end each side's out key equals the other side's in key.
+func workload4(res *core.Result, r *rand.Rand, link bool, order string, keyPrefix string) {
+	p := env.NewPair(r, "c15 w4")
+	encA, encB := p.AB.Encryption(), p.BA.Encryption()
+	if link {
+		var err error
+		encA, err = p.OrigA.DeriveSessionFromKX(true, "link layer crypt")
+		if err != nil {
+			panic(err)
+		}
+		encB, err = p.OrigB.DeriveSessionFromKX(false, "link layer crypt")
+		if err != nil {
+			panic(err)
+		}
+	}
+	kind := map[bool]string{true: "link-layer", false: "end-to-end"}[link]
+	wit := map[string]any{"workload": "both-directions-wrap", "kind": kind, "order": order, "case_id": fmt.Sprintf("w4:%s:%s", kind, order)}
+	n := 0
+	type fr struct {
+		bytes []byte
+		ab    bool
+		desc  string
+	}
+	mk := func(ab, prio bool) (fr, error) {
+		n++
+		payload := []byte(fmt.Sprintf("c15-w4-%06d", n))
+		from, to, sess, enc := p.A, p.B, p.AB, encA
+		if !ab {
+			from, to, sess, enc = p.B, p.A, p.BA, encB
+		}
+		if link {
+			buf := make([]byte, peering.FrameOffset+len(payload)+peering.FrameOverhead)
+			lf := peering.LinkFrame(buf)
+			copy(lf.LinkData(), payload)
+			if err := lf.Seal(enc); err != nil {
+				return fr{}, err
+			}
+			return fr{buf, ab, fmt.Sprintf("link frame seq %d", lf.SequenceNum())}, nil
+		}
+		mt := frame.SessionData
+		if prio {
+			mt = frame.RouterCtrl
+		}
+		f, err := from.BuilderV.NewFrameV1(from.IdentityV.IP, to.IdentityV.IP, mt, nil, payload, nil)
+		if err != nil {
+			return fr{}, err
+		}
+		defer f.ReturnToPool()
+		if err := f.Seal(sess); err != nil {
+			return fr{}, err
+		}
+		d, _ := f.FrameDataWithMargins(0, 0)
+		return fr{append([]byte(nil), d...), ab, fmt.Sprintf("type %d seq %d", mt, f.SequenceNum())}, nil
+	}
+	open := func(x fr) error {
+		at, sess, enc := p.B, p.BA, encB
+		if !x.ab {
+			at, sess, enc = p.A, p.AB, encA
+		}
+		if link {
+			return peering.LinkFrame(append([]byte(nil), x.bytes...)).Unseal(enc)
+		}
+		f, err := at.BuilderV.ParseFrame(append([]byte(nil), x.bytes...), nil, 0)
+		if err != nil {
+			return err
+		}
+		defer f.ReturnToPool()
+		return f.Unseal(sess)
+	}
+	dirName := map[bool]string{true: "A->B", false: "B->A"}
+	exchange := func(ab bool, count int, when string) bool {
+		for i := 0; i < count; i++ {
+			x, err := mk(ab, !link && i%3 == 2)
+			if err != nil {
+				res.Violate("seal-failed:both-directions-wrap", fmt.Sprintf("%s, wraps %s: sealing a %s frame %s failed: %v", kind, order, dirName[ab], when, err), wit)
+				return false
+			}
+			if err := open(x); err != nil {
+				res.Violate("keys-out-of-sync:both-directions-wrap", fmt.Sprintf("%s, wraps %s: an in-order %s frame (%s) %s does not unseal at its receiver: %v", kind, order, dirName[ab], x.desc, when, err), wit)
+				return false
+			}
+		}
+		return true
+	}
+	if !exchange(true, 4, "before any wrap") || !exchange(false, 4, "before any wrap") {
+		return
+	}
+	for wi, c := range order {
+		ab := c == 'a'
+		when := fmt.Sprintf("at wrap %d (%s)", wi+1, dirName[ab])
+		// a frame under the key that is about to be replaced
+		old, err := mk(ab, false)
+		if err != nil || open(old) != nil {
+			res.Violate("keys-out-of-sync:both-directions-wrap", fmt.Sprintf("%s, wraps %s: %s frame before wrap %d rejected", kind, order, dirName[ab], wi+1), wit)
+			return
+		}
+		enc := encA
+		if !ab {
+			enc = encB
+		}
+		k := 2 + r.IntN(6)
+		helper(enc).ReglSetOut(uint32(wrap - uint64(k)))
+		if !exchange(ab, k+6, when) {
+			return
+		}
+		if !exchange(!ab, 4, "after "+when[3:]) {
+			return
+		}
+		// fresh copy of the old frame: its key is gone
+		if err := open(old); err == nil {
+			res.Violate("old-key-frame-accepted:both-directions-wrap", fmt.Sprintf("%s, wraps %s: a %s frame sealed before wrap %d still unseals after it", kind, order, dirName[ab], wi+1), wit)
+			return
+		}
+	}
+	if !bytes.Equal(helper(encA).OutKey(), helper(encB).InKey()) || !bytes.Equal(helper(encB).OutKey(), helper(encA).InKey()) {
+		res.Violate("keys-out-of-sync:both-directions-wrap", fmt.Sprintf("%s, wraps %s: after all wraps a side's out key differs from the other side's in key", kind, order), wit)
+		return
+	}
+	res.Count("both_directions_wrap_histories", 1)
+	res.Case(fmt.Sprintf("%sw4:%s:%s", keyPrefix, kind, order), true)
+}
+
 func parallel(n int, fn func(w int)) {
 	var wg sync.WaitGroup
 	for w := 0; w < n; w++ {
@@ -617,6 +742,27 @@ func run(c *core.Ctx) {
 			workload3(res, r, 2+r.IntN(40), "")
 		}
 	})
+	// Workload 4: every order of wraps of the two directions.
+	var orders []string
+	var gen func(prefix string, left int)
+	gen = func(prefix string, left int) {
+		if len(prefix) >= 2 {
+			orders = append(orders, prefix)
+		}
+		if left == 0 {
+			return
+		}
+		gen(prefix+"a", left-1)
+		gen(prefix+"b", left-1)
+	}
+	gen("", c.Q(3, 5))
+	parallel(W, func(w int) {
+		r := core.RNG(fmt.Sprintf("c15/w4/%d", w))
+		for i := w; i < 2*len(orders); i += W {
+			workload4(res, r, i%2 == 1, orders[i/2], "")
+		}
+	})
+	res.Sample(map[string]any{"workload": 4, "desc": "end-to-end pair, wraps in the order A->B, B->A, A->B; traffic in both directions after each"})
 	res.Sample(map[string]any{"workload": 3, "desc": "B->A priority frames accepted; A->B regular wraps; B->A frames replayed at A; B seals more priority frames"})
 	res.Assume("the 32-bit wrap is reached by presetting the outgoing counter through the repository's EncryptionSessionTestHelper (2^32 real frames are out of reach)")
 	res.Assume("under reordering the sender preset is at least 10 frames before the wrap, so the receiver has seen a number >= 0xFFFFFF00 before the first new-epoch frame arrives (true for every real session, whose counter starts at 1)")
